@@ -76,10 +76,12 @@ let () =
          | Some Model.OFooterRange -> "footer-range"
          | Some Model.OFooterDecode -> "footer-decode")
     | _ -> failwith "c14.open args");
-  (* c14.pages <cur> <size> <avail> <page sizes>  ->  <pages returned>/<end|unexpected> *)
+  (* c14.pages <cur> <size> <avail> <header:body,...>  ->  <pages returned>/<end|unexpected> *)
   register "c14.pages" (function
     | [cur; size; avail; pages] ->
-        let ps = List.map (fun x -> n_of_int (int_of_string x)) (split_on ',' pages) in
+        let ps = List.map (fun x -> match String.split_on_char ':' x with
+          | [h; b] -> (n_of_int (int_of_string h), n_of_int (int_of_string b))
+          | _ -> failwith "page") (split_on ',' pages) in
         let (k, e) = Model.read_pages (bool_of_tok cur) (n_of_int (int_of_string size)) (n_of_int (int_of_string avail)) Model.N0 ps in
         Printf.sprintf "%d/%s" (int_of_nat k) (match e with Model.PEnd -> "end" | Model.PUnexpected -> "unexpected")
     | _ -> failwith "c14.pages args");
